@@ -298,8 +298,28 @@ impl AnnotatedLexer<'_> {
         self.get_any()?.as_string()
     }
 
+    /// The end of the file in the middle of a statement behaves like the end of a line
+    /// (once), so that a truncated last line is reported instead of being dropped.
+    fn end_of_file_token(&self) -> Option<Token> {
+        if self.reached_end_of_file || self.raw_token == RawToken::default() {
+            None
+        } else {
+            let end = *self.raw_token.range().end();
+            Some(Token::new(
+                TokenType::Newline,
+                "\n".to_string(),
+                Range::new(end, end),
+                self.raw_token.file(),
+            ))
+        }
+    }
+
     fn get_any(&mut self) -> Result<Token, LexError> {
-        let item = self.lexer.next().ok_or(LexError::UnexpectedEOF)?;
+        let Some(item) = self.lexer.next() else {
+            let token = self.end_of_file_token().ok_or(LexError::UnexpectedEOF)?;
+            self.reached_end_of_file = true;
+            return Ok(token);
+        };
         if let Ok(ref item) = item {
             if self.raw_token == RawToken::default() {
                 self.raw_token = item.clone().into();
@@ -317,7 +337,7 @@ impl AnnotatedLexer<'_> {
     fn peek_any(&mut self) -> Result<Token, LexError> {
         match self.lexer.peek() {
             Some(item) => item.clone(),
-            None => Err(LexError::UnexpectedEOF),
+            None => self.end_of_file_token().ok_or(LexError::UnexpectedEOF),
         }
     }
 }
@@ -325,6 +345,7 @@ impl AnnotatedLexer<'_> {
 struct AnnotatedLexer<'a> {
     lexer: &'a mut Peekable<Lexer>,
     raw_token: RawToken,
+    reached_end_of_file: bool,
 }
 impl TryFrom<&mut Peekable<Lexer>> for ParserNode {
     type Error = LexError;
@@ -339,6 +360,7 @@ impl TryFrom<&mut Peekable<Lexer>> for ParserNode {
         let mut lex = AnnotatedLexer {
             lexer: val,
             raw_token: RawToken::default(),
+            reached_end_of_file: false,
         };
 
         let next_node = lex.get_any()?;
@@ -1043,7 +1065,10 @@ impl TryFrom<&mut Peekable<Lexer>> for ParserNode {
                             // not found
                             let mut values = Vec::new();
                             loop {
-                                let next = lex.peek_any()?;
+                                // (the end of the file ends the list)
+                                let Ok(next) = lex.peek_any() else {
+                                    break;
+                                };
                                 if let TokenType::Newline = next.token_type() {
                                     // consume newline
                                     lex.get_any()?;
